@@ -988,6 +988,9 @@ func (x *Exec) convertAssign(v Value, from, to types.Type, st *State) Value {
 	}
 	ts := x.scalarSort(to)
 	if ts == nil {
+		if b, ok := from.Underlying().(*types.Basic); ok && b.Kind() == types.UntypedNil {
+			return x.zeroValue(to)
+		}
 		return v
 	}
 	if t.T.Eq(ts) {
